@@ -2058,6 +2058,8 @@ fuzzy_info = {json.dumps(ret)};
         my_workflowAttributes = self.workflowAttributes
 
         errors = []
+        # VV: (reference, value) for every reference that is substituted in the command line, in declaration order
+        substitutions = []
 
         for reference in self.dataReferences:
             graphLogger.debug("Reference: \"%s\"" % reference)
@@ -2111,50 +2113,54 @@ fuzzy_info = {json.dumps(ret)};
 
             graphLogger.debug("Reference value: %s" % reference_value)
 
-            errors = []
-
             if reference.method in [DataReference.Output, DataReference.LoopOutput]:
                 # VV: The reference value is in fact the CONTENTS of the file that the data-reference points to
-                reference_value = reference_value or ""
-                if arguments.find(reference.absoluteReference) != -1:
-                    arguments = arguments.replace(reference.absoluteReference, reference_value)
-                elif arguments.find(reference.relativeReference) != -1:
-                    arguments = arguments.replace(reference.relativeReference, reference_value)
-                else:
-                    if unused is not None:
-                        unused.append(experiment.model.errors.UnusedDataReferenceError(self.identification.identifier,
-                                                                                       reference,
-                                                "All declared references of type "
-                                                "'%s' must be used in component command line ("
-                                                "could find neither \"%s\" nor \"%s\" in \"%s\"" % (
-                                                    reference.method,
-                                                    reference.absoluteReference, reference.relativeReference,
-                                                    arguments
-                                         )))
-                    message = 'Could not locate reference %s in arguments %s' % (
-                        reference.absoluteReference, arguments
-                    )
-                    graphLogger.warning(message)
+                substitutions.append((reference, reference_value or ""))
             elif reference_value is not None and reference.method in [DataReference.Ref, DataReference.LoopRef]:
                 # VV: The reference_value is definitely a path because it's a "ref" type
-                path = reference_value
-                if arguments.find(reference.absoluteReference) == -1 and arguments.find(reference.relativeReference) == -1:
-                    if unused is not None:
-                        unused.append(experiment.model.errors.UnusedDataReferenceError(self.identification.identifier,
-                                                                                       reference,
-                                                "All declared references of type "
-                                                "'%s' must be used in component command line("
-                                                "could find neither \"%s\" nor \"%s\" in \"%s\"" % (
-                                                    reference.method,
-                                                    reference.absoluteReference, reference.relativeReference,
-                                                    arguments
-                                         )))
-                else:
-                    # Resolve the reference in the command line
-                    if arguments.find(reference.absoluteReference) == -1:
-                        arguments = arguments.replace(reference.relativeReference, path)
-                    else:
-                        arguments = arguments.replace(reference.absoluteReference, path)
+                substitutions.append((reference, reference_value))
+
+        # Substitute ALL references in ONE pass over the original arguments: at each position the longest spelling
+        # wins. Replacing one reference after the other would also rewrite text that is part of a different reference
+        # (e.g. `A:ref` inside `BA:ref` or inside `stage0.A:ref`), text that was just substituted, and would leave the
+        # relative spelling behind when the absolute one is also present - and the result would depend on the order
+        # in which the references are declared.
+        spellings = {}
+        for reference, reference_value in substitutions:
+            spellings[reference.absoluteReference] = (reference, reference_value)
+        for reference, reference_value in substitutions:
+            # VV: a relative spelling refers to a producer in the stage of this component (if there is one)
+            if reference.stageIndex == self.identification.stageIndex:
+                spellings[reference.relativeReference] = (reference, reference_value)
+        for reference, reference_value in substitutions:
+            spellings.setdefault(reference.relativeReference, (reference, reference_value))
+
+        used = set()
+        raw_arguments = arguments
+
+        if spellings:
+            pattern = re.compile('|'.join(re.escape(x) for x in sorted(spellings, key=len, reverse=True)))
+
+            def substitute(match):
+                reference, reference_value = spellings[match.group(0)]
+                used.add(reference.absoluteReference)
+                return reference_value
+
+            arguments = pattern.sub(substitute, arguments)
+
+        for reference, _ in substitutions:
+            if reference.absoluteReference not in used:
+                if unused is not None:
+                    unused.append(experiment.model.errors.UnusedDataReferenceError(
+                        self.identification.identifier, reference,
+                        "All declared references of type '%s' must be used in component command line ("
+                        "could find neither \"%s\" nor \"%s\" in \"%s\"" % (
+                            reference.method, reference.absoluteReference, reference.relativeReference,
+                            raw_arguments)))
+                graphLogger.warning('Could not locate reference %s in arguments %s' % (
+                    reference.absoluteReference, raw_arguments))
+
+        errors = []
 
         # Check for unresolved/undeclared references in CL - this is anything of form :ref :link
 
